@@ -192,7 +192,12 @@ def validate_lowering(job, unit, workdir, seed, iters=20000):
             out['note'] = 'no body'
             return out
         ghosts = job.get('ghosts', [])
-        hg = RP.HarnessGen(lw, fn, job['specs'][fn], ghosts, K=6)
+        fx = dict(job.get('fixed') or {})
+        fx.update(job.get('fixed_args') or {})
+        if job.get('sweep'):
+            vs = job['sweep'][1]
+            fx[job['sweep'][0]] = vs[len(vs) // 2]
+        hg = RP.HarnessGen(lw, fn, job['specs'][fn], ghosts, K=max(6, int(job.get('harness_K', 6)) if job.get('sweep') else 6), fixed=fx)
         hg.always_both = True
         hg.native_skip_ensures = True
         htext = hg.build()
@@ -208,7 +213,7 @@ def validate_lowering(job, unit, workdir, seed, iters=20000):
                 stub_fns.append(cn)
         tdefs = 'typedef unsigned short qx_char16;\ntypedef unsigned int qx_char32;\ntypedef int qx_wchar;\n'
         gtext = tdefs + ''.join('%s %s;\n' % (t, g) for t, g in ghosts)
-        jd = os.path.join(workdir, 'val_' + R.safe_name(fn) + '_' + R.safe_name('_'.join(unit.get('defines', ()))))
+        jd = os.path.join(workdir, 'val_' + R.safe_name(job['name']))
         os.makedirs(jd, exist_ok=True)
         nat_c = os.path.join(jd, 'validate.c')
         with open(nat_c, 'w') as f:
@@ -311,7 +316,7 @@ def run_property(pid, tier, seed, workdir, t0, a):
     seen = set()
     vjobs = []
     for j in jobs:
-        key = (j.get('fn'), j['unit']['driver'], tuple(j['unit'].get('defines', ())))
+        key = (j.get('fn'), j['unit']['driver'], tuple(j['unit'].get('defines', ())), tuple(sorted((j.get('fixed_args') or {}).items())))
         if j.get('mode', 'dfcc') not in ('dfcc', 'harness') or key in seen or j.get('fn') not in j.get('specs', {}):
             continue
         seen.add(key)
